@@ -1,4 +1,615 @@
-import ZtypV.Spec
+/-
+C12 — Partial (summarised) backings are handled safely.
+
+For every view whose backing has had arbitrary subtrees replaced by their summary roots, the
+hash-tree-root is unchanged and every read or mutation either reports an error or produces
+exactly the result it would have produced on the full tree; it never panics and never
+silently yields different data.
+
+Vocabulary
+* `Summ h n n'` (Proofs/Summ.lean): `n'` is `n` with any set of subtrees replaced by the leaf
+  holding their Merkle root — what any sequence of `tree.SummarizeInto` calls produces
+  (`C12_summarizeInto`, `C12_summarizeInto_again`).
+* `Rep h t v n` (Proofs/Rep.lean): `n` is a (full) backing of the value `v : t`.
+* `ZeroFaithful h k n` (Proofs/Summ.lean): no non-zero subtree of `n`, met at height `j` by a
+  path of length ≤ `k`, hashes to the zero hash `zh h j`.  Needed exactly where Go's setter is
+  called with `expand = true` (`Append`, `Pop`): the setter expands a leaf that EQUALS the zero
+  hash of its height, and for an arbitrary pair hash a summarised non-zero subtree may collide
+  with it (`C12_unfaithful_counterexample`).  For SHA-256 this is a collision-resistance
+  assumption (a second preimage of a zero hash).
+
+All theorems are for every pair hash `h` and without bounds on sizes beyond `View.inRange`
+(Go's `uint64` / depth-64 limits).  Reads: section 3; single mutations: section 4; iterators:
+section 5.  "Error" below is always `Err.nav` or `Err.other`, never `Err.panic`.
+-/
+import ZtypV.Proofs.SummEx
+import ZtypV.Proofs.SummStart
 namespace ZtypV.Props.C12
-theorem placeholder : True := trivial
+open ZtypV ZtypV.View ZtypV.View.Iter ZtypV.Sim ZtypV.Partial
+
+/-! ### 1. the summary relation, the root -/
+
+/-- the hash-tree-root of a partial tree is the root of the full tree -/
+theorem C12_root {h : HashFn} {n n' : Node} (hs : Summ h n n') : n'.root h = n.root h := hs.root
+
+theorem C12_summ_refl (h : HashFn) (n : Node) : Summ h n n := Summ.refl n
+
+theorem C12_summ_trans {h : HashFn} {a b c : Node} (h1 : Summ h a b) (h2 : Summ h b c) :
+    Summ h a c := h1.trans h2
+
+/-- Go's `SummarizeInto(target)` produces a summary … -/
+theorem C12_summarizeInto {h : HashFn} {n n' : Node} {p : List Bool}
+    (hs : summarizeInto h n p = .ok n') : Summ h n n' := Summ.of_summarizeInto hs
+
+/-- … also when applied to an already partial tree (any sequence of summarisations) -/
+theorem C12_summarizeInto_again {h : HashFn} {n n' n'' : Node} {p : List Bool}
+    (h1 : Summ h n n') (hs : summarizeInto h n' p = .ok n'') : Summ h n n'' :=
+  Summ.of_summarizeInto_partial h1 hs
+
+/-! ### 2. navigation and the setters on a partial tree -/
+
+/-- `Getter`: a read that succeeds on the partial tree is the summary of the full-tree read;
+    a read that succeeds on the full tree succeeds with its summary or fails with a
+    navigation error on the partial tree; never a panic -/
+theorem C12_getNode {h : HashFn} {n n' : Node} (hs : Summ h n n') (p : List Bool) :
+    (∀ x', getNode n' p = .ok x' → ∃ x, getNode n p = .ok x ∧ Summ h x x') ∧
+    (∀ x, getNode n p = .ok x →
+      (∃ x', getNode n' p = .ok x' ∧ Summ h x x') ∨ getNode n' p = .error .nav) ∧
+    getNode n' p ≠ .error .panic :=
+  ⟨fun x' hx' => Summ.getNode_back p n n' x' hs hx', fun x hx => Summ.getNode_fwd p n n' x hs hx,
+    Summ.getNode_no_panic n' p⟩
+
+/-- `Setter(target, expand = false)` then binding a (possibly partial) node -/
+theorem C12_setNode_noexpand {h : HashFn} {n n' v v' m' : Node} {p : List Bool}
+    (hs : Summ h n n') (hv : Summ h v v') (hm : setNode h n' p false v' = .ok m') :
+    ∃ m, setNode h n p false v = .ok m ∧ Summ h m m' :=
+  Summ.setNode_back_false hs hv hm
+
+/-- `Setter(target, expand = true)`: under faithfulness of the hash on the full tree.  The
+    partial result may keep a summary `leaf (zh h k)` where the full result has a materialised
+    zero subtree. -/
+theorem C12_setNode_expand {h : HashFn} {n n' v v' m' : Node} {p : List Bool}
+    (hs : Summ h n n') (hv : Summ h v v') (hz : ZeroFaithful h p.length n)
+    (hm : setNode h n' p true v' = .ok m') :
+    ∃ m, setNode h n p true v = .ok m ∧ Summ h m m' :=
+  Summ.setNode_back_expand hs hv hz hm
+
+theorem C12_setNode_no_panic (h : HashFn) (n' : Node) (p : List Bool) (e : Bool) (v : Node) :
+    setNode h n' p e v ≠ .error .panic := Summ.setNode_no_panic h n' p e v
+
+/-- `ZeroFaithful` spelled out with navigation -/
+theorem C12_zeroFaithful_iff (h : HashFn) (k : Nat) (n : Node) :
+    ZeroFaithful h k n ↔
+      ∀ (p : List Bool) (s : Node), p.length ≤ k → getNode n p = .ok s →
+        s.root h = zh h (k - p.length) → ZeroTree h (k - p.length) s :=
+  ⟨fun hz p s hl hg hr => ZeroFaithful.at_path p k n s hz hl hg hr, ZeroFaithful.of_paths k n⟩
+
+/-- the hypothesis is needed: with a constant hash a non-zero subtree is summarised by the
+    "zero hash", the setter expands it as zeros, and the write succeeds on the partial tree with
+    a result that is NOT a summary of the full-tree result (position `[true]` now reads `z0`
+    instead of the data) — while both results have the same root, so nothing can notice -/
+theorem C12_unfaithful_counterexample :
+    ∃ (n n' v m m' : Node) (p : List Bool), Summ Ex.constH n n' ∧
+      setNode Ex.constH n' p true v = .ok m' ∧ setNode Ex.constH n p true v = .ok m ∧
+      ¬ Summ Ex.constH m m' ∧ m'.root Ex.constH = m.root Ex.constH ∧
+      getNode m [true] = .ok (Ex.el 2) ∧ getNode m' [true] = .ok (.leaf z0) := by
+  refine ⟨.pair (Ex.el 1) (Ex.el 2), .leaf z0, Ex.el 3, .pair (Ex.el 3) (Ex.el 2),
+    .pair (Ex.el 3) (.leaf z0), [false], Summ.collapse _, rfl, rfl, ?_, rfl, rfl, rfl⟩
+  intro hs
+  obtain ⟨l, r, he, _, hr⟩ := Summ.pair_right hs
+  cases he
+  have := hr.leaf_left
+  revert this
+  decide
+
+/-! ### 3. typed reads on a partial backing -/
+
+/-- the root of a partial view is the spec's `hash_tree_root` of the value -/
+theorem C12_root_typed (h : HashFn) {t : Ty} {v : Val} {n n' : Node} (hwf : t.wf = true)
+    (hnb : noBoolSeries t = true) (hty : hasType t v = true) (hrep : Rep h t v n)
+    (hs : Summ h n n') : n'.root h = htr h t v := by
+  rw [hs.root]; exact rep_root h hwf hnb hty hrep
+
+/-- MAIN (getters): reading a partial view through the typed getters yields the full value or
+    a navigation error -/
+theorem C12_getters_or (h : HashFn) {t : Ty} {v : Val} {n n' : Node} (hwf : t.wf = true)
+    (hr : inRange t = true) (hty : hasType t v = true) (hrep : Rep h t v n) (hs : Summ h n n') :
+    viewVal t n' = .ok v ∨ viewVal t n' = .error .nav :=
+  (viewVal_fwd hs t).eq_or_nav (rep_getters h hwf hr hty hrep)
+
+theorem C12_getters (h : HashFn) {t : Ty} {v v' : Val} {n n' : Node} (hwf : t.wf = true)
+    (hr : inRange t = true) (hty : hasType t v = true) (hrep : Rep h t v n) (hs : Summ h n n')
+    (hv : viewVal t n' = .ok v') : v' = v := by
+  rcases C12_getters_or h hwf hr hty hrep hs with h1 | h1 <;> rw [h1] at hv <;> cases hv
+  rfl
+
+theorem C12_getters_no_panic (h : HashFn) {t : Ty} {v : Val} {n n' : Node} (hwf : t.wf = true)
+    (hr : inRange t = true) (hty : hasType t v = true) (hrep : Rep h t v n) (hs : Summ h n n') :
+    viewVal t n' ≠ .error .panic := by
+  rcases C12_getters_or h hwf hr hty hrep hs with h1 | h1 <;> rw [h1] <;> intro hc <;> cases hc
+
+/-- `Serialize` of a partial view: the spec encoding or a navigation error -/
+theorem C12_ser_or (h : HashFn) {t : Ty} {v : Val} {n n' : Node} (hwf : t.wf = true)
+    (hr : inRange t = true) (hty : hasType t v = true) (hlen : (serialize t v).length < 2 ^ 32)
+    (hrep : Rep h t v n) (hs : Summ h n n') :
+    serializeView t n' = .ok (serialize t v) ∨ serializeView t n' = .error .nav :=
+  (serializeView_fwd hs t).eq_or_nav (rep_ser h hwf hr hty hlen hrep)
+
+theorem C12_ser (h : HashFn) {t : Ty} {v : Val} {n n' : Node} {bs : Bytes} (hwf : t.wf = true)
+    (hr : inRange t = true) (hty : hasType t v = true) (hlen : (serialize t v).length < 2 ^ 32)
+    (hrep : Rep h t v n) (hs : Summ h n n') (hb : serializeView t n' = .ok bs) :
+    bs = serialize t v ∧ serializeView t n' ≠ .error .panic := by
+  rcases C12_ser_or h hwf hr hty hlen hrep hs with h1 | h1
+  · rw [h1] at hb; cases hb; exact ⟨rfl, by rw [h1]; intro hc; cases hc⟩
+  · rw [h1] at hb; cases hb
+
+theorem C12_ser_no_panic (h : HashFn) {t : Ty} {v : Val} {n n' : Node} (hwf : t.wf = true)
+    (hr : inRange t = true) (hty : hasType t v = true) (hlen : (serialize t v).length < 2 ^ 32)
+    (hrep : Rep h t v n) (hs : Summ h n n') : serializeView t n' ≠ .error .panic := by
+  rcases C12_ser_or h hwf hr hty hlen hrep hs with h1 | h1 <;> rw [h1] <;> intro hc <;> cases hc
+
+/-- `ValueByteLength` of a partial view: the length of the spec encoding or a navigation error -/
+theorem C12_len (h : HashFn) {t : Ty} {v : Val} {n n' : Node} (hwf : t.wf = true)
+    (hr : inRange t = true) (hty : hasType t v = true) (hrep : Rep h t v n) (hs : Summ h n n') :
+    valueByteLength t n' = .ok (serialize t v).length ∨ valueByteLength t n' = .error .nav :=
+  (valueByteLength_fwd hs t).eq_or_nav (rep_len h hwf hr hty hrep)
+
+/-- `Length()` of a partial list view -/
+theorem C12_length_list (h : HashFn) {e : Ty} {lim : Nat} {vs : List Val} {n n' : Node}
+    (hr : inRange (.list e lim) = true) (hrep : Rep h (.list e lim) (.seq vs) n)
+    (hs : Summ h n n') :
+    listLength n' lim = .ok vs.length ∨ listLength n' lim = .error .nav := by
+  simp only [inRange, Bool.and_eq_true, decide_eq_true_eq] at hr
+  apply (listLength_fwd hs lim).eq_or_nav
+  simp only [Rep] at hrep
+  obtain ⟨hle, hsh⟩ := hrep
+  split at hsh
+  · exact listShape_length h hsh hle (by omega)
+  · obtain ⟨xs, _, hsh⟩ := hsh
+    exact listShape_length h hsh hle (by omega)
+
+/-- `Length()` of a partial bitlist view -/
+theorem C12_length_bitlist (h : HashFn) {lim : Nat} {bs : List Bool} {n n' : Node}
+    (hr : inRange (.bitlist lim) = true) (hrep : Rep h (.bitlist lim) (.bits bs) n)
+    (hs : Summ h n n') :
+    listLength n' lim = .ok bs.length ∨ listLength n' lim = .error .nav := by
+  simp only [inRange, Bool.and_eq_true, decide_eq_true_eq] at hr
+  apply (listLength_fwd hs lim).eq_or_nav
+  simp only [Rep] at hrep
+  exact listShape_length h hrep.2 hrep.1 (by omega)
+
+/-- the typed getter `Get(i)` on a partial view: if it succeeds, it succeeds on the full view
+    with the same element type and the element backing it returns is the summary of the full
+    one (for packed elements and bits: the identical fresh leaf) — and then that element is the
+    one the value model reads, backed by a `Rep` tree, so everything in this file applies to
+    the element view again; it never panics -/
+theorem C12_getElem (h : HashFn) {t : Ty} {v : Val} {n n' : Node} (i : Nat) (hwf : t.wf = true)
+    (hr : inRange t = true) (hty : hasType t v = true) (hrep : Rep h t v n) (hs : Summ h n n') :
+    (∀ et en', getElemNode t n' i = .ok (et, en') →
+      ∃ en x, getElemNode t n i = .ok (et, en) ∧ Summ h en en' ∧
+        valElem t v i = some (et, x) ∧ Rep h et x en ∧ hasType et x = true) ∧
+    getElemNode t n' i ≠ .error .panic := by
+  refine ⟨fun et en' hg => ?_, getElem_noPanic t n' i⟩
+  obtain ⟨en, x, h1, h2, h3, h4, h5, _⟩ :=
+    getElem_partial h i hwf (depthOk_of_inRange t hr) hty hrep hs hg
+  exact ⟨en, x, h1, h2, h3, h4, h5⟩
+
+/-! ### 4. typed single mutations on a partial backing
+
+`en'` / `b'` / `content'` — the backing of the new element — may itself be partial. -/
+
+/-- `Set(i, x)` on a partial view -/
+theorem C12_set (h : HashFn) {t : Ty} {v : Val} {n n' en en' : Node} (i : Nat) (x : Val)
+    (hrep : Rep h t v n) (hs : Summ h n n') (he : Summ h en en') :
+    (∀ m', Mut.set h t n' i x en' = .ok m' → ∃ m, Mut.set h t n i x en = .ok m ∧ Summ h m m') ∧
+    Mut.set h t n' i x en' ≠ .error .panic :=
+  ⟨set_back t i x hs he (rep_readLeaves h hrep), set_noPanic h t n' i x en'⟩
+
+/-- the parent-side write-back of `SetBacking` propagation on a partial parent -/
+theorem C12_hookSet (h : HashFn) {t : Ty} {v : Val} {n n' b b' : Node} (i : Nat)
+    (hrep : Rep h t v n) (hs : Summ h n n') (hb : Summ h b b') :
+    (∀ m', hookSet h t n' i b' = .ok m' → ∃ m, hookSet h t n i b = .ok m ∧ Summ h m m') ∧
+    hookSet h t n' i b' ≠ .error .panic :=
+  ⟨hookSet_back t i hs hb (rep_readLeaves h hrep), hookSet_noPanic h t n' i b'⟩
+
+/-- `Append(x)` on a partial list / bitlist view (setter with expansion) -/
+theorem C12_append (h : HashFn) {t : Ty} {v : Val} {n n' en en' : Node} (x : Val)
+    (hrep : Rep h t v n) (hs : Summ h n n') (he : Summ h en en')
+    (hz : ZeroFaithful h (viewDepth t) n) :
+    (∀ m', Mut.append h t n' x en' = .ok m' →
+      ∃ m, Mut.append h t n x en = .ok m ∧ Summ h m m') ∧
+    Mut.append h t n' x en' ≠ .error .panic :=
+  ⟨append_back t x hs he (rep_readLeaves h hrep) hz, append_noPanic h t n' x en'⟩
+
+/-- `Pop()` on a partial list / bitlist view (setter with expansion) -/
+theorem C12_pop (h : HashFn) {t : Ty} {v : Val} {n n' : Node}
+    (hrep : Rep h t v n) (hs : Summ h n n') (hz : ZeroFaithful h (viewDepth t) n) :
+    (∀ m', Mut.pop h t n' = .ok m' → ∃ m, Mut.pop h t n = .ok m ∧ Summ h m m') ∧
+    Mut.pop h t n' ≠ .error .panic :=
+  ⟨pop_back t hs (rep_readLeaves h hrep) hz, pop_noPanic h t n'⟩
+
+/-- `Change(sel, value)` of a union view does not look at the old backing at all: with a
+    (possibly partial) new content it yields the summary of the full result -/
+theorem C12_change (h : HashFn) (t : Ty) (sel : Nat) {content content' : Option Node}
+    (hc : OptSumm h content content') :
+    (∀ m', Mut.change t sel content' = .ok m' →
+      ∃ m, Mut.change t sel content = .ok m ∧ Summ h m m') ∧
+    Mut.change t sel content' ≠ .error .panic :=
+  ⟨change_back t sel hc, change_noPanic t sel content'⟩
+
+/-- `Set` then read: the mutated partial view is a summary of a `Rep` backing of the mutated
+    value, so sections 1–5 apply to it again (root, getters shown here) -/
+theorem C12_set_then_read (h : HashFn) {t : Ty} {v : Val} {n n' en m' : Node} (i : Nat) (x : Val)
+    (hwf : t.wf = true) (hr : inRange t = true) (hty : hasType t v = true) (hrep : Rep h t v n)
+    (hs : Summ h n n') (hx : hasType (slotTy t i) x = true)
+    (hen : packedSlot t = false → Rep h (slotTy t i) x en)
+    (hm : Mut.set h t n' i x en = .ok m') :
+    ∃ v' m, valSet t v i x = some v' ∧ Mut.set h t n i x en = .ok m ∧ Rep h t v' m ∧
+      hasType t v' = true ∧ Summ h m m' ∧
+      (viewVal t m' = .ok v' ∨ viewVal t m' = .error .nav) ∧
+      (noBoolSeries t = true → m'.root h = htr h t v') := by
+  obtain ⟨m, hfull, hsum⟩ := (C12_set h i x hrep hs (Summ.refl en)).1 m' hm
+  have hspec := set_rep h t v n i x en hwf (depthOk_of_inRange t hr) hty hrep hx hen
+  cases hvs : valSet t v i x with
+  | none => rw [hvs] at hspec; obtain ⟨e, he, _⟩ := hspec; rw [he] at hfull; cases hfull
+  | some v' =>
+    rw [hvs] at hspec
+    obtain ⟨m1, h1, hrep', hty'⟩ := hspec
+    rw [h1] at hfull; cases hfull
+    exact ⟨v', m, rfl, h1, hrep', hty', hsum, C12_getters_or h hwf hr hty' hrep' hsum,
+      fun hnb => C12_root_typed h hwf hnb hty' hrep' hsum⟩
+
+/-- `Append` then read -/
+theorem C12_append_then_read (h : HashFn) {t : Ty} {v : Val} {n n' en m' : Node} (x : Val)
+    (hwf : t.wf = true) (hr : inRange t = true) (hty : hasType t v = true) (hrep : Rep h t v n)
+    (hs : Summ h n n') (hz : ZeroFaithful h (viewDepth t) n)
+    (hx : hasType (slotTy t 0) x = true)
+    (hen : packedSlot t = false → Rep h (slotTy t 0) x en)
+    (hm : Mut.append h t n' x en = .ok m') :
+    ∃ v' m, valAppend t v x = some v' ∧ Mut.append h t n x en = .ok m ∧ Rep h t v' m ∧
+      hasType t v' = true ∧ Summ h m m' ∧
+      (viewVal t m' = .ok v' ∨ viewVal t m' = .error .nav) ∧
+      (noBoolSeries t = true → m'.root h = htr h t v') := by
+  obtain ⟨m, hfull, hsum⟩ := (C12_append h x hrep hs (Summ.refl en) hz).1 m' hm
+  have hspec := append_rep h t v n x en hwf (depthOk_of_inRange t hr) hty hrep hx hen
+  cases hvs : valAppend t v x with
+  | none => rw [hvs] at hspec; obtain ⟨e, he, _⟩ := hspec; rw [he] at hfull; cases hfull
+  | some v' =>
+    rw [hvs] at hspec
+    obtain ⟨m1, h1, hrep', hty'⟩ := hspec
+    rw [h1] at hfull; cases hfull
+    exact ⟨v', m, rfl, h1, hrep', hty', hsum, C12_getters_or h hwf hr hty' hrep' hsum,
+      fun hnb => C12_root_typed h hwf hnb hty' hrep' hsum⟩
+
+/-- `Pop` then read -/
+theorem C12_pop_then_read (h : HashFn) {t : Ty} {v : Val} {n n' m' : Node}
+    (hwf : t.wf = true) (hr : inRange t = true) (hty : hasType t v = true) (hrep : Rep h t v n)
+    (hs : Summ h n n') (hz : ZeroFaithful h (viewDepth t) n)
+    (hm : Mut.pop h t n' = .ok m') :
+    ∃ v' m, valPop t v = some v' ∧ Mut.pop h t n = .ok m ∧ Rep h t v' m ∧
+      hasType t v' = true ∧ Summ h m m' ∧
+      (viewVal t m' = .ok v' ∨ viewVal t m' = .error .nav) ∧
+      (noBoolSeries t = true → m'.root h = htr h t v') := by
+  obtain ⟨m, hfull, hsum⟩ := (C12_pop h hrep hs hz).1 m' hm
+  have hspec := pop_rep h t v n hwf (depthOk_of_inRange t hr) hty hrep
+  cases hvs : valPop t v with
+  | none => rw [hvs] at hspec; obtain ⟨e, he, _⟩ := hspec; rw [he] at hfull; cases hfull
+  | some v' =>
+    rw [hvs] at hspec
+    obtain ⟨m1, h1, hrep', hty'⟩ := hspec
+    rw [h1] at hfull; cases hfull
+    exact ⟨v', m, rfl, h1, hrep', hty', hsum, C12_getters_or h hwf hr hty' hrep' hsum,
+      fun hnb => C12_root_typed h hwf hnb hty' hrep' hsum⟩
+
+/-- the hook write-back then read (`SetBacking` propagation into a partial parent, the child
+    backing `b'` itself partial) -/
+theorem C12_hookSet_then_read (h : HashFn) {t : Ty} {v : Val} {n n' b b' m' : Node} (i : Nat)
+    (x : Val) (hwf : t.wf = true) (hr : inRange t = true) (hty : hasType t v = true)
+    (hrep : Rep h t v n) (hs : Summ h n n') (hc : packedSlot t = false)
+    (hx : hasType (slotTy t i) x = true) (hb : Rep h (slotTy t i) x b) (hbs : Summ h b b')
+    (hm : hookSet h t n' i b' = .ok m') :
+    ∃ v' m, valSet t v i x = some v' ∧ hookSet h t n i b = .ok m ∧ Rep h t v' m ∧
+      hasType t v' = true ∧ Summ h m m' ∧
+      (viewVal t m' = .ok v' ∨ viewVal t m' = .error .nav) := by
+  obtain ⟨m, hfull, hsum⟩ := (C12_hookSet h i hrep hs hbs).1 m' hm
+  have hspec := hookSet_rep h t v n i x b hwf (depthOk_of_inRange t hr) hty hrep hc hx hb
+  cases hvs : valSet t v i x with
+  | none => rw [hvs] at hspec; obtain ⟨e, he, _⟩ := hspec; rw [he] at hfull; cases hfull
+  | some v' =>
+    rw [hvs] at hspec
+    obtain ⟨m1, h1, hrep', hty'⟩ := hspec
+    rw [h1] at hfull; cases hfull
+    exact ⟨v', m, rfl, h1, hrep', hty', hsum, C12_getters_or h hwf hr hty' hrep' hsum⟩
+
+/-! ### 5. iterators on a partial backing (corollaries of C17) -/
+
+/-- node iterator (`ReadonlyIter()` of complex series — `anchor` the contents subtree — and of
+    containers): call by call (`StepSumm`), the iterator over the partial tree shows the summary
+    of the node the full-tree iterator shows, the same end, or a non-panic error (which it
+    then repeats: nothing is skipped, `C17_node_iter`) -/
+theorem C12_iter {h : HashFn} {anchor anchor' : Node} (hs : Summ h anchor anchor')
+    (length depth : Nat) (hb : (NodeIt.new anchor length depth).bad = false) (n : Nat) :
+    StepsSumm (Summ h)
+      (runSteps NodeIt.next n (NodeIt.new anchor length depth))
+      (runSteps NodeIt.next n (NodeIt.new anchor' length depth)) :=
+  nodeIter_summ hs length depth hb n
+
+/-- the contents anchor of a partial list-like view: if the iterator can be started at all
+    (`n'` is a pair), its anchor is a summary of the full view's anchor -/
+theorem C12_iter_anchor {h : HashFn} {n l' r' : Node} (hs : Summ h n (.pair l' r')) :
+    ∃ l r, n = .pair l r ∧ Summ h l l' ∧ Summ h r r' := Summ.pair_right hs
+
+/-- packed element iterator over a partial tree: the same values, the same end, or an error
+    (`hl`: the bottom layer of the full tree consists of leaves — true for every `Rep`
+    backing, `C12_rep_bottom_leaves`) -/
+theorem C12_iter_basic {h : HashFn} {anchor anchor' : Node} (hs : Summ h anchor anchor')
+    (length depth size : Nat) (hl : BottomLeaves anchor depth)
+    (hb : (BasicIt.new anchor length depth size).bad = false) (n : Nat) :
+    StepsSumm Eq
+      (runSteps BasicIt.next n (BasicIt.new anchor length depth size))
+      (runSteps BasicIt.next n (BasicIt.new anchor' length depth size)) :=
+  basicIter_summ hs length depth size hl hb n
+
+/-- bit iterator over a partial tree -/
+theorem C12_iter_bit {h : HashFn} {anchor anchor' : Node} (hs : Summ h anchor anchor')
+    (length depth : Nat) (hl : BottomLeaves anchor depth)
+    (hb : (BitIt.new anchor length depth).bad = false) (n : Nat) :
+    StepsSumm Eq
+      (runSteps BitIt.next n (BitIt.new anchor length depth))
+      (runSteps BitIt.next n (BitIt.new anchor' length depth)) :=
+  bitIter_summ hs length depth hl hb n
+
+/-- what the CLIENT of `ReadonlyIter()` over complex series / containers sees (`AnyIt.nodes`:
+    node iterator + `ViewFromBacking` of the element type): call by call (`OutSumm`) an element
+    view of the same type over the summary of the full iterator's element backing, the same
+    end, or an error.  `hview`: on the full tree every element node opens as a view of its
+    type (true for `Rep` backings by `rep_viewOk`). -/
+theorem C12_iter_ro_nodes {h : HashFn} {anchor anchor' : Node} (hs : Summ h anchor anchor')
+    (length depth : Nat) (ety : Nat → Option Ty)
+    (hb : (NodeIt.new anchor length depth).bad = false)
+    (hview : ∀ k c t, k < length → subtreeGet anchor depth k = .ok c → ety k = some t →
+      elemViewOk t c = true) (m : Nat) :
+    OutsSumm h (runSteps AnyIt.next m (.nodes (NodeIt.new anchor length depth) ety))
+      (runSteps AnyIt.next m (.nodes (NodeIt.new anchor' length depth) ety)) :=
+  anyNodes_summ hs length depth ety hb hview m
+
+/-- … of packed uint series: the same values, the same end, or an error -/
+theorem C12_iter_ro_basics {h : HashFn} {anchor anchor' : Node} (hs : Summ h anchor anchor')
+    (length depth size : Nat) (t : Ty) (hl : BottomLeaves anchor depth)
+    (hb : (BasicIt.new anchor length depth size).bad = false) (m : Nat) :
+    OutsSumm h (runSteps AnyIt.next m (.basics (BasicIt.new anchor length depth size) t))
+      (runSteps AnyIt.next m (.basics (BasicIt.new anchor' length depth size) t)) :=
+  anyBasics_summ hs length depth size t hl hb m
+
+/-- … of bitfields: the same bits, the same end, or an error -/
+theorem C12_iter_ro_bits {h : HashFn} {anchor anchor' : Node} (hs : Summ h anchor anchor')
+    (length depth : Nat) (hl : BottomLeaves anchor depth)
+    (hb : (BitIt.new anchor length depth).bad = false) (m : Nat) :
+    OutsSumm h (runSteps AnyIt.next m (.bits (BitIt.new anchor length depth)))
+      (runSteps AnyIt.next m (.bits (BitIt.new anchor' length depth))) :=
+  anyBits_summ hs length depth hl hb m
+
+/-- the index-based `Iter()` (every view kind) on a partial `Rep`-backed view: position by
+    position the typed getter's answer — the element view over the summary of the full
+    element backing / the same bit — or an error; every call advances also after an error -/
+theorem C12_iter_indexed (h : HashFn) {t : Ty} {v : Val} {n n' : Node} (length : Nat)
+    (hwf : t.wf = true) (hr : inRange t = true) (hty : hasType t v = true) (hrep : Rep h t v n)
+    (hs : Summ h n n') (m : Nat) :
+    OutsSumm h (runSteps AnyIt.next m (.indexed t n length 0))
+      (runSteps AnyIt.next m (.indexed t n' length 0)) :=
+  anyIndexed_summ h length hwf (depthOk_of_inRange t hr) hty hrep hs m
+
+/-- MAIN (iterators of the view API): `ReadonlyIter()` (`ro = true`) and `Iter()` (`ro = false`)
+    of ANY partial `Rep`-backed view, as the client sees them, against the same iterator of the
+    full view: call by call an element view of the same type over the summary of the full
+    element backing / the same packed value / the same bit, the same end, or an error.
+    (If the partial view cannot start the iterator — `Length()` fails — it is the failed
+    iterator: an error for ever; likewise when the construction-time limit check fails, which
+    depends on length and depth only and so fails for the full view too.) -/
+theorem C12_iter_view (h : HashFn) {t : Ty} {v : Val} {n n' : Node} (ro : Bool) (hwf : t.wf = true)
+    (hr : inRange t = true) (hty : hasType t v = true) (hrep : Rep h t v n) (hs : Summ h n n')
+    (m : Nat) :
+    OutsSumm h (runSteps AnyIt.next m (start t n ro)) (runSteps AnyIt.next m (start t n' ro)) :=
+  start_summ h ro hwf hr hty hrep hs m
+
+/-- `StepsSumm` / `OutsSumm` read position by position -/
+theorem C12_iter_pointwise {h : HashFn} {xs ys : List Iter.Out} (hs : OutsSumm h xs ys) :
+    xs.length = ys.length ∧ ∀ j (h1 : j < xs.length) (h2 : j < ys.length), OutSumm h xs[j] ys[j] :=
+  hs.get
+
+/-- THE observation behind sections 3–5, full-tree side: in every `Rep` backing the positions
+    the typed code reads as leaves (length node; packed chunks incl. materialised padding) are
+    leaves; on the partial side `Summ h (.leaf r) x'` forces `x' = .leaf r` -/
+theorem C12_rep_read_leaves (h : HashFn) {t : Ty} {v : Val} {n : Node} (hrep : Rep h t v n) :
+    ReadLeaves t n := rep_readLeaves h hrep
+
+/-- … and for the packed kinds the iterator anchor (the view root for vectors / bitvectors, the
+    contents subtree for lists / bitlists) has a bottom layer of leaves, as `C12_iter_basic` /
+    `C12_iter_bit` require -/
+theorem C12_rep_bottom_leaves (h : HashFn) {t : Ty} {v : Val} {n : Node} (hrep : Rep h t v n)
+    (hp : packedSlot t = true) :
+    match t with
+    | .list _ _ | .bitlist _ => ∀ l r, n = .pair l r → BottomLeaves l (viewDepth t - 1)
+    | _ => BottomLeaves n (viewDepth t) := by
+  have hl := rep_readLeaves h hrep
+  cases t with
+  | uint _ => cases hp
+  | bool => cases hp
+  | bytesN _ => cases hp
+  | container _ => cases hp
+  | union _ _ => cases hp
+  | bitvector k => exact hl
+  | vector e k => exact hl hp
+  | bitlist lim =>
+    intro l r hn
+    subst hn
+    simp only [viewDepth, Nat.add_sub_cancel]
+    exact hl.2.left
+  | list e lim =>
+    intro l r hn
+    subst hn
+    simp only [viewDepth, Nat.add_sub_cancel]
+    exact (hl.2 hp).left
+
+theorem C12_leaf_kept {h : HashFn} {r : Root} {x' : Node} (hs : Summ h (.leaf r) x') :
+    x' = .leaf r := hs.leaf_left
+
+/-! ### 6. non-vacuity: `List[uint256, 8]`, the toy hash `Ex.exH` -/
+
+section examples
+open ZtypV.Partial.Ex
+
+example : exT.wf = true ∧ inRange exT = true ∧ noBoolSeries exT = true ∧
+    hasType exT exV3 = true ∧ hasType exT exV4 = true := by decide
+
+-- one position summarised by the Go operation: the partial tree, a summary, same root
+example : summarizeInto exH exN3 [false, false, true] = .ok exP3 := rfl
+example : exP3.root exH = htr exH exT exV3 :=
+  C12_root_typed exH (by decide) (by decide) (by decide) (exRep3 exH)
+    (C12_summarizeInto (p := [false, false, true]) rfl)
+example : exP3 ≠ exN3 := by decide
+
+-- reading the element under the summary errs, reading another element returns it
+example : getElemNode exT exP3 2 = .error .nav := rfl
+example : getElemNode exT exP3 0 = .ok (.uint 32, el 1) := rfl
+example : viewVal exT exP3 = .error .nav := rfl
+example : viewVal exT exN3 = .ok exV3 := rfl
+example := C12_getters_or exH (t := exT) (by decide) (by decide) (by decide) (exRep3 exH) exSumm3
+example := C12_getElem exH (t := exT) 0 (by decide) (by decide) (by decide) (exRep3 exH) exSumm3
+example := C12_ser_or exH (t := exT) (by decide) (by decide) (by decide) (by decide) (exRep3 exH) exSumm3
+example := C12_len exH (t := exT) (by decide) (by decide) (by decide) (exRep3 exH) exSumm3
+example := C12_length_list exH (by decide) (exRep3 exH) exSumm3
+-- the length and the byte length are still readable
+example : listLength exP3 8 = .ok 3 ∧ valueByteLength exT exP3 = .ok 96 := ⟨rfl, rfl⟩
+
+-- `Append` through the summarised NON-zero subtree errs (full tree: succeeds)
+example : Mut.append exH exT exP3 (.num 9) (.leaf z0) = .error .nav := rfl
+example : ∃ m, Mut.append exH exT exN3 (.num 9) (.leaf z0) = .ok m := ⟨_, rfl⟩
+-- `Set` of the element under the summary errs, `Set` of another one works and is related
+example : Mut.set exH exT exP3 2 (.num 9) (.leaf z0) = .error .nav := rfl
+example : ∃ m', Mut.set exH exT exP3 0 (.num 9) (.leaf z0) = .ok m' := ⟨_, rfl⟩
+example := C12_set exH (t := exT) 0 (.num 9) (exRep3 exH) exSumm3 (Summ.refl (.leaf z0))
+example := C12_set_then_read exH (t := exT) (en := .leaf z0) 0 (.num 9) (by decide) (by decide) (by decide)
+  (exRep3 exH) exSumm3 (by decide) (fun hc => absurd hc (by decide)) rfl
+
+-- `Append` through a summarised ZERO subtree succeeds (expansion), and the result is the
+-- summary of the full-tree result: the right half of the expanded subtree stays a summary
+-- `leaf (zh 1)` where the full tree has the materialised pair of zero leaves
+example : summarizeInto exH exN4 [false, true] = .ok exP4 := rfl
+example : Mut.append exH exT exP4 (.num 9) (.leaf z0) =
+    .ok (.pair (.pair (.pair (.pair (el 1) (el 2)) (.pair (el 3) (el 4)))
+      (.pair (.pair (el 9) (.leaf z0)) (.leaf (zh exH 1)))) (lengthNode 5)) := rfl
+example : Mut.append exH exT exN4 (.num 9) (.leaf z0) =
+    .ok (.pair (.pair (.pair (.pair (el 1) (el 2)) (.pair (el 3) (el 4)))
+      (.pair (.pair (el 9) (.leaf z0)) (.pair (.leaf z0) (.leaf z0)))) (lengthNode 5)) := rfl
+example := C12_append exH (t := exT) (.num 9) (exRep4 exH) exSumm4 (Summ.refl (.leaf z0)) exFaithful4
+example : ∃ m', Mut.append exH exT exP4 (.num 9) (.leaf z0) = .ok m' ∧
+    ∃ v' m, valAppend exT exV4 (.num 9) = some v' ∧ Mut.append exH exT exN4 (.num 9) (.leaf z0) = .ok m ∧
+      Rep exH exT v' m ∧ Summ exH m m' ∧ (viewVal exT m' = .ok v' ∨ viewVal exT m' = .error .nav) := by
+  refine ⟨_, rfl, ?_⟩
+  obtain ⟨v', m, h1, h2, h3, _, h5, h6, _⟩ := C12_append_then_read exH (t := exT) (en := .leaf z0) (.num 9)
+    (by decide) (by decide) (by decide) (exRep4 exH) exSumm4 exFaithful4 (by decide)
+    (fun hc => absurd hc (by decide)) rfl
+  exact ⟨v', m, h1, h2, h3, h5, h6⟩
+example := C12_pop exH (t := exT) (exRep4 exH) exSumm4 exFaithful4
+example : ∃ m', Mut.pop exH exT exP4 = .ok m' := ⟨_, rfl⟩
+
+-- navigation and the raw setters
+example : getNode exN3 [false, false, true, false] = .ok (el 3) ∧
+    getNode exP3 [false, false, true, false] = .error .nav ∧
+    getNode exP3 [false, false, false, true] = .ok (el 2) := ⟨rfl, rfl, rfl⟩
+example := C12_getNode exSumm3 [false, false, true, false]
+example : ∃ m' m, setNode exH exP3 [false, false, false, true] false (el 9) = .ok m' ∧
+    setNode exH exN3 [false, false, false, true] false (el 9) = .ok m ∧ Summ exH m m' := by
+  obtain ⟨m, h1, h2⟩ := C12_setNode_noexpand (p := [false, false, false, true]) exSumm3
+    (Summ.refl (el 9)) rfl
+  exact ⟨_, m, rfl, h1, h2⟩
+example : ∃ m' m, setNode exH exP4 [false, true, false, false] true (el 9) = .ok m' ∧
+    setNode exH exN4 [false, true, false, false] true (el 9) = .ok m ∧ Summ exH m m' := by
+  obtain ⟨m, h1, h2⟩ := C12_setNode_expand (p := [false, true, false, false]) exSumm4
+    (Summ.refl (el 9)) exFaithful4' rfl
+  exact ⟨_, m, rfl, h1, h2⟩
+example := (C12_zeroFaithful_iff exH 4 exN4).mp exFaithful4'
+
+-- `SetBacking` propagation: a `Set` on the partial list inside `Container{uint64, List}`,
+-- written back into the partial container through the hook
+example : exTC.wf = true ∧ inRange exTC = true ∧ hasType exTC exVC = true := by decide
+example := C12_hookSet exH (t := exTC) 1 (exRepC exH) exSummC exSumm3
+example : ∃ b' m', Mut.set exH exT exP3 0 (.num 9) (.leaf z0) = .ok b' ∧
+    hookSet exH exTC exPC 1 b' = .ok m' := ⟨_, _, rfl, rfl⟩
+example := C12_getters_or exH (t := exTC) (by decide) (by decide) (by decide) (exRepC exH) exSummC
+-- `Change` of a union to the (partial) list as new content
+example := C12_change exH (.union true [exT]) 1 (OptSumm.some exSumm3)
+example : ∃ m', Mut.change (.union true [exT]) 1 (some exP3) = .ok m' := ⟨_, rfl⟩
+
+-- iterators: the packed-element iterator over the contents of the partial list shows
+-- 1, 2 and then errs (for ever) where the full one shows 1, 2, 3, done
+example := C12_iter_basic (h := exH) exSummC3 3 3 32 exLeavesC3 (by decide) 5
+example := C12_rep_bottom_leaves exH (exRep3 exH) (by decide)
+example : (runSteps BasicIt.next 4 (BasicIt.new exCP3 3 3 32)).length = 4 := rfl
+example := C12_iter_view exH (t := exT) true (by decide) (by decide) (by decide) (exRep3 exH) exSumm3 5
+example := C12_iter_view exH (t := exTC) true (by decide) (by decide) (by decide) (exRepC exH) exSummC 4
+example : runSteps AnyIt.next 5 (start exT exP3 true) =
+    [.val (.uint 32) (.num 1), .val (.uint 32) (.num 2), .err, .err, .err] := rfl
+example : runSteps AnyIt.next 5 (start exT exN3 true) =
+    [.val (.uint 32) (.num 1), .val (.uint 32) (.num 2), .val (.uint 32) (.num 3), .done, .done] := rfl
+example := C12_iter_ro_basics (h := exH) exSummC3 3 3 32 (.uint 32) exLeavesC3 (by decide) 5
+example := C12_iter_indexed exH (t := exT) 3 (by decide) (by decide) (by decide) (exRep3 exH) exSumm3 5
+example : runSteps AnyIt.next 4 (.indexed exT exP3 3 0) =
+    [.node (.uint 32) (el 1), .node (.uint 32) (el 2), .err, .done] := rfl
+example : runSteps AnyIt.next 4 (.indexed exT exN3 3 0) =
+    [.node (.uint 32) (el 1), .node (.uint 32) (el 2), .node (.uint 32) (el 3), .done] := rfl
+example := C12_iter_ro_nodes (h := exH) exSummC 2 1 (fun i => [Ty.uint 8, exT][i]?) (by decide)
+  (fun k c t hk hc ht => by
+    have hk' : k = 0 ∨ k = 1 := by omega
+    rcases hk' with rfl | rfl
+    · cases hc; cases ht; rfl
+    · cases hc; cases ht; rfl) 4
+-- the node iterator over the contents of the partial trees
+example := C12_iter (h := exH) (anchor := exN3) (anchor' := exP3) exSumm3 2 1 (by decide) 5
+example : ZeroFaithful exH (viewDepth exT) exN3 := exFaithful3
+
+end examples
+
 end ZtypV.Props.C12
+
+#print axioms ZtypV.Props.C12.C12_root
+#print axioms ZtypV.Props.C12.C12_summ_trans
+#print axioms ZtypV.Props.C12.C12_summarizeInto
+#print axioms ZtypV.Props.C12.C12_summarizeInto_again
+#print axioms ZtypV.Props.C12.C12_getNode
+#print axioms ZtypV.Props.C12.C12_setNode_noexpand
+#print axioms ZtypV.Props.C12.C12_setNode_expand
+#print axioms ZtypV.Props.C12.C12_setNode_no_panic
+#print axioms ZtypV.Props.C12.C12_zeroFaithful_iff
+#print axioms ZtypV.Props.C12.C12_unfaithful_counterexample
+#print axioms ZtypV.Props.C12.C12_root_typed
+#print axioms ZtypV.Props.C12.C12_getters_or
+#print axioms ZtypV.Props.C12.C12_getters
+#print axioms ZtypV.Props.C12.C12_getters_no_panic
+#print axioms ZtypV.Props.C12.C12_ser_or
+#print axioms ZtypV.Props.C12.C12_ser
+#print axioms ZtypV.Props.C12.C12_ser_no_panic
+#print axioms ZtypV.Props.C12.C12_len
+#print axioms ZtypV.Props.C12.C12_length_list
+#print axioms ZtypV.Props.C12.C12_length_bitlist
+#print axioms ZtypV.Props.C12.C12_getElem
+#print axioms ZtypV.Props.C12.C12_set
+#print axioms ZtypV.Props.C12.C12_hookSet
+#print axioms ZtypV.Props.C12.C12_append
+#print axioms ZtypV.Props.C12.C12_pop
+#print axioms ZtypV.Props.C12.C12_change
+#print axioms ZtypV.Props.C12.C12_set_then_read
+#print axioms ZtypV.Props.C12.C12_append_then_read
+#print axioms ZtypV.Props.C12.C12_pop_then_read
+#print axioms ZtypV.Props.C12.C12_hookSet_then_read
+#print axioms ZtypV.Props.C12.C12_iter
+#print axioms ZtypV.Props.C12.C12_iter_basic
+#print axioms ZtypV.Props.C12.C12_iter_bit
+#print axioms ZtypV.Props.C12.C12_iter_ro_nodes
+#print axioms ZtypV.Props.C12.C12_iter_ro_basics
+#print axioms ZtypV.Props.C12.C12_iter_ro_bits
+#print axioms ZtypV.Props.C12.C12_iter_indexed
+#print axioms ZtypV.Props.C12.C12_iter_view
+#print axioms ZtypV.Props.C12.C12_rep_read_leaves
+#print axioms ZtypV.Props.C12.C12_rep_bottom_leaves
